@@ -19,6 +19,12 @@ type Val struct {
 	Elems []Val
 	Fn    *ssa.Function // statically known function value
 	Clo   []Val         // closure bindings when Fn is a closure
+	Dyn   *dynVal       // interface value built in this path from a value of a known concrete type
+}
+
+type dynVal struct {
+	T types.Type
+	V Val
 }
 
 type Sel struct {
@@ -99,6 +105,7 @@ type Ctx struct {
 	inQuant   int
 	coverCalls bool
 	privRefs   []privRef
+	curTop     ssa.Instruction // instruction of the function under contract being executed
 }
 
 func newCtx(eng *Engine, mode Mode, fnKey string) *Ctx {
@@ -448,8 +455,9 @@ func (c *Ctx) refAxioms(heap, key string, bound string) {
 }
 
 type privRef struct {
-	key string
-	ref string
+	key   string
+	ref   string
+	until []ssa.Instruction // private only while none of these (captures) can have run
 }
 
 func (c *Ctx) havocAll(st *State, keepCells bool) {
@@ -462,6 +470,15 @@ func (c *Ctx) havocAll(st *State, keepCells bool) {
 	var keep []saved
 	for _, pr := range c.privRefs {
 		if _, ok := c.heapSorts[pr.key]; !ok {
+			continue
+		}
+		escaped := false
+		for _, u := range pr.until {
+			if mayHaveRun(u, c.curTop) {
+				escaped = true
+			}
+		}
+		if escaped {
 			continue
 		}
 		rootSort := strings.TrimSuffix(strings.TrimPrefix(c.heapSorts[pr.key], "(Array Int "), ")")
